@@ -1249,6 +1249,15 @@ func runC19(args []string) {
 			case 2:
 				if len(x.Files) != c19ExpectedRuns(d) {
 					bad = fmt.Sprintf("completed, but %d summary file(s) for %d run(s): %v", len(x.Files), c19ExpectedRuns(d), x.All)
+				} else if lvl, _ := d.OutputLevel.str(); lvl == "Detail" {
+					// Detail level: besides its summary every run writes at least the files of its as-is solution, whether the
+					// output type is spelled out or left to its default (CSV)
+					ot, otGiven := d.OutputType.str()
+					name, _ := d.Name.str()
+					if (!d.OutputType.present() || (otGiven && (ot == "CSV" || ot == "JSON"))) && len(name) <= 100 && c19ExpectedRuns(d) > 0 &&
+						len(x.All)-len(x.Files) < c19ExpectedRuns(d) {
+						bad = fmt.Sprintf("completed at Detail level, but only %d file(s) besides the %d summary file(s) were written: %v", len(x.All)-len(x.Files), len(x.Files), x.All)
+					}
 				}
 			case 3:
 				bad = "accepted, but Scenario.Run() returned an error"
